@@ -255,7 +255,7 @@ def quad_specs():
     import cyecca.models.quadrotor as q
     m = q.derive_model()
     # the plant's body moment and body force as functions of (state, parameters): the expressions the model builds (C17)
-    f_mb = ca.Function("M_b", [m["x"], m["p"]], [m["M_b"], m["F_b"]], ["x", "p"], ["M_b", "F_b"])
+    f_mb = ca.Function("M_b", [m["x"], m["u"], m["p"]], [m["M_b"], m["F_b"]], ["x", "u", "p"], ["M_b", "F_b"])
     return [fn_spec("quadrotor.f", m["f"]), fn_spec("quadrotor.g_accel", m["g_accel"]),
             fn_spec("quadrotor.g_gyro", m["g_gyro"]), fn_spec("quadrotor.M_b", f_mb)]
 
